@@ -1,6 +1,9 @@
 package main
 
-import "math/rand"
+import (
+	"math/rand"
+	"strings"
+)
 
 func genEmail(rng *rand.Rand, thorough bool) {
 	// fixed corpus: members, near-members, the repository's seeds
@@ -26,6 +29,25 @@ func genEmail(rng *rand.Rand, thorough bool) {
 		emit("first.last+tag@" + d)
 		emit(d + "@b.cd")
 		emit(d)
+	}
+	// names an implementation might special-case (mail providers, reserved hosts), in every letter case and with the characters
+	// that Unicode case folding maps onto ASCII letters (U+212A KELVIN SIGN ~ k, U+017F LONG S ~ s, U+0130/U+0131 dotted and
+	// dotless i, U+212B ANGSTROM ~ å), fullwidth forms, and with a trailing dot
+	for _, d := range []string{"gmail.com", "googlemail.com", "yahoo.com", "hotmail.com", "outlook.com", "icloud.com", "live.com", "msn.com", "aol.com", "protonmail.com",
+		"example.com", "example.org", "localhost.localdomain", "mail.ru", "qq.com", "gmx.de"} {
+		up := strings.ToUpper(d)
+		emit("user@" + d)
+		emit("user@" + up)
+		emit("USER@" + strings.ToUpper(d[:1]) + d[1:])
+		emit("user@" + d + ".")
+		emit("user@" + d + " ")
+		for i := 0; i < len(d); i++ {
+			for _, sub := range map[byte][]string{'k': {"\u212a"}, 'K': {"\u212a"}, 's': {"\u017f"}, 'i': {"\u0131", "\u0130"}, 'a': {"\u212b", "\uff41"}, 'o': {"\uff4f", "\u03bf"},
+				'm': {"\uff4d"}, 'l': {"\uff4c", "1"}, 'c': {"\u0441"}, 'e': {"\u0435"}, '.': {"\u3002", "\uff0e"}}[d[i]] {
+				emit("user@" + d[:i] + sub + d[i+1:])
+				emit("user@" + up[:i] + sub + up[i+1:])
+			}
+		}
 	}
 	for _, l := range []string{"postmaster", "root", "admin", "no-reply", "MAILER-DAEMON", "1", "12345", "0x10", "+", "-", "_", "a+", "+a", "a++b", "a--b", "a__b", "a+b+c",
 		"a=b", "a/b", "a?b", "a#b", "a%b", "a%40b", "a&b", "a'b", "a*b", "a^b", "a`b", "a{b}", "a|b", "a~b", "a!b", "a$b", "\"a\"", "\"a b\"", "\"\"", "a\"", "\"a", "(c)a", "a(c)",
